@@ -3,7 +3,7 @@
    border), runs only through finite, i.e. in-band and max_step-admissible,
    cells, and its cost, penalties included, is exactly the value of that cell. *)
 From Coq Require Import ZArith List Lia.
-From DV Require Import Cost Grid Dtw DtwSpec Traceback.
+From DV Require Import Cost Grid Dtw DtwSpec Traceback RelaxedEnd RelaxedEndSpec.
 
 Theorem C05_traced_path_cost : forall u s1 s2 i j,
   wpath_cost u s1 s2 i j (tb (Mfun u s1 s2) (adj_penalty u) (i + j) i j) = Some (Mfun u s1 s2 i j).
@@ -28,3 +28,21 @@ Proof.
   intros u s1 s2 i j Hi Hj. apply tb_ext with (r := sr s1) (c := sc s2); auto.
   intros a b Ha Hb. apply wps_matrix_Mfun; assumption.
 Qed.
+
+(* dtw.warping_path as written (end relaxation marks of dtw.warping_paths, then _relaxed_end,
+   then best_path): the start cell of the trace is an admissible relaxed end cell and the traced
+   path costs exactly the distance that warping_paths reports -- for every psi, also when a
+   series has length 1 and the neighbour of the marked corner is a border cell. *)
+Theorem C05_warping_path_cost_is_distance : forall u s1 s2, (1 <= sr s1)%nat -> (1 <= sc s2)%nat ->
+  dtw_value u s1 s2 <> Inf ->
+  let ij := relaxed_end (Mfun u s1 s2) (sr s1) (sc s2) (psi_1e u) (psi_2e u) in
+  In ij (end_cands u s1 s2) /\
+  wpath_cost u s1 s2 (fst ij) (snd ij)
+    (tb (Mfun u s1 s2) (adj_penalty u) (fst ij + snd ij) (fst ij) (snd ij)) = Some (dtw_value u s1 s2).
+Proof. exact warping_path_cost_is_distance. Qed.
+
+(* the value chosen by the end relaxation of warping_paths (first minimum of the last column,
+   first minimum of the last row, the column only if strictly smaller) is the specification's distance *)
+Theorem C05_relaxed_value_is_distance : forall u s1 s2, (1 <= sr s1)%nat -> (1 <= sc s2)%nat ->
+  value (Mfun u s1 s2) (sr s1) (sc s2) (psi_1e u) (psi_2e u) = dtw_value u s1 s2.
+Proof. exact relaxed_value_is_dtw_value. Qed.
